@@ -4,6 +4,7 @@ import (
 	"bytes"
 	"go/ast"
 	"go/printer"
+	"strings"
 )
 
 func c17Src(rel string, e ast.Node) string {
@@ -49,14 +50,23 @@ func factsC17() {
 	addStrList("c17AcquireConds", c17IfConds(gl, methodDecl(gl, "AcmeStorages", "Acquire")), "global.go AcmeStorages.Acquire: if conditions")
 	addStrList("c17AcquireAssigns", c17AssignsAll(gl, methodDecl(gl, "AcmeStorages", "Acquire")), "global.go AcmeStorages.Acquire: assignments")
 	addStrList("c17RemoveAllBody", c17Stmts(gl, methodDecl(gl, "AcmeStorages", "RemoveAll")), "global.go AcmeStorages.RemoveAll: statements")
+	addStrList("c17StoragesClearBody", c17Stmts(gl, methodDecl(gl, "AcmeStorages", "Clear")),
+		"global.go AcmeStorages.Clear: statements (items become removal candidates, the object survives a full sync)")
 	addStrList("c17CommitBody", c17Stmts(gl, methodDecl(gl, "AcmeStorages", "Commit")), "global.go AcmeStorages.Commit: statements")
 	cf := "pkg/haproxy/config.go"
 	addStrList("c17ClearBody", c17Stmts(cf, methodDecl(cf, "config", "Clear")),
-		"config.go config.Clear: statements (only the backends are carried over; acmeData is the fresh one of createConfig)")
+		"config.go config.Clear: statements (backends and the acme storages are carried over)")
 	in := "pkg/haproxy/instance.go"
 	addStrList("c17AcmeUpdateConds", c17IfConds(in, methodDecl(in, "instance", "AcmeUpdate")), "instance.go AcmeUpdate: if conditions")
 	addStrList("c17AcmeUpdateCalls", methodCalls(in, "instance", "AcmeUpdate"), "instance.go AcmeUpdate: selector calls in source order")
 	ig := "pkg/converters/ingress/ingress.go"
+	var tlsConds []string
+	for _, c := range c17IfConds(ig, methodDecl(ig, "converter", "syncIngressHTTP")) {
+		if strings.Contains(c, "tls.SecretName") {
+			tlsConds = append(tlsConds, c)
+		}
+	}
+	addStrList("c17AcmeTLSConds", tlsConds, "ingress.go syncIngressHTTP: conditions on the TLS block before an acme storage is acquired")
 	var ctxs []string
 	ast.Inspect(methodDecl(ig, "converter", "trackAddedIngress").Body, func(n ast.Node) bool {
 		if c, ok := n.(*ast.CallExpr); ok && calleeName(c.Fun) == "c.tracker.TrackNames" && len(c.Args) == 4 {
@@ -65,7 +75,7 @@ func factsC17() {
 		return true
 	})
 	addStrList("c17PreTrackContexts", ctxs,
-		"ingress.go trackAddedIngress: right-hand resource type of every pre-tracking call (no ResourceAcmeData)")
+		"ingress.go trackAddedIngress: right-hand resource type of every pre-tracking call (no ResourceAcmeData: an existing storage may be acquired again without being removed, Acquire copes with it)")
 }
 
 // c17AssignsAll: every assignment inside fd as source text
